@@ -9,6 +9,7 @@ from qce_circuit.structure.intrf_circuit_operation import (
     RelationLink,
     ChannelIdentifier,
     ICircuitOperation,
+    invalidate_start_time_memo,
 )
 from qce_circuit.structure.intrf_acquisition_operation import (
     IAcquisitionOperation,
@@ -55,6 +56,8 @@ class SingleQubitOperation(ICircuitOperation):
     @relation_link.setter
     def relation_link(self, link: IRelationLink[ICircuitOperation]):
         """:sets: Description of relation to other circuit node."""
+        if link is not self.relation:
+            invalidate_start_time_memo()
         self.relation = link
 
     @property
@@ -563,6 +566,8 @@ class TwoQubitOperation(ICircuitOperation):
     @relation_link.setter
     def relation_link(self, link: IRelationLink[ICircuitOperation]):
         """:sets: Description of relation to other circuit node."""
+        if link is not self.relation:
+            invalidate_start_time_memo()
         self.relation = link
 
     @property
@@ -714,6 +719,8 @@ class DispersiveMeasure(IAcquisitionOperation):
     @relation_link.setter
     def relation_link(self, link: IRelationLink[ICircuitOperation]):
         """:sets: Description of relation to other circuit node."""
+        if link is not self.relation:
+            invalidate_start_time_memo()
         self.relation = link
 
     @property
@@ -826,6 +833,8 @@ class Barrier(ICircuitOperation):
     @relation_link.setter
     def relation_link(self, link: IRelationLink[ICircuitOperation]):
         """:sets: Description of relation to other circuit node."""
+        if link is not self.relation:
+            invalidate_start_time_memo()
         self.relation = link
 
     @property
